@@ -150,7 +150,7 @@ def run(chk: lib.Check):
             A = graph.Abstraction()
             fragmented_layout = "resources" not in spec and hi % 3 == 2
             runner = histories.HistoryRunner(model, rng, savedir=tmp,
-                                             kinds=histories.HistoryRunner.KINDS + ["save", "viewpoint", "move_role", "move_role"] + (["delete_linked"] * 6 + ["placeholder_ancestor"] * 3 if fragmented_layout else []))
+                                             kinds=histories.HistoryRunner.KINDS + ["save", "viewpoint", "move_role", "move_role", "create_bad", "create_bad"] + (["delete_linked"] * 6 + ["placeholder_ancestor"] * 3 if fragmented_layout else []))
             tracked = [p for p in loader.trees if p.suffix not in graph.VISUAL and p.parts[0] == "\0"]
             before = {p: A.nodes(loader.trees[p]) for p in tracked}
             nodes0 = {p: list(before[p]) for p in tracked}
@@ -174,7 +174,14 @@ def run(chk: lib.Check):
             check_lookups(chk, model, A, all_ids0, "load", spec0, [])
             check_search(chk, model, A, rng.sample(types_present, min(12, len(types_present))), "load", spec0, [])
             for si in range(n_steps):
-                st = runner.step()
+                if si % 4 == 3:
+                    # the rarely drawn operations take turns at fixed positions, so that every history contains each of them
+                    rare_ = ["role_replace", "create_bad", "move_role", "create_bad", "role_replace", "move_role", "use_stale", "create_bad"]
+                    all_kinds_, runner.kinds = runner.kinds, [rare_[(si // 4 + hi) % len(rare_)]]
+                    st = runner.step()
+                    runner.kinds = all_kinds_
+                else:
+                    st = runner.step()
                 opstats[(st.kind, "ok" if st.ok else (st.err or "fail"))] += 1
                 hist_desc.append(f"{st.kind}: {st.desc} -> {'ok' if st.ok else st.err}")
                 label = hist_desc[-1]
